@@ -110,7 +110,8 @@ class Gen:
     """Structured op-sequence generator. `mix` = dict op -> weight."""
 
     def __init__(self, rng, mix, max_threads=3, storagecap=None, malformed=0.0, lock_bias=0.15,
-                 avoid=frozenset(), letters=LETTERS, ndeps=0, shared=False, latedep_held=False, reassign=False):
+                 avoid=frozenset(), letters=LETTERS, ndeps=0, shared=False, latedep_held=False, reassign=False,
+                 locked_immediate=False, shared_frac=None):
         self.r = rng
         self.mix = mix
         self.ref = Ref()
@@ -120,7 +121,8 @@ class Gen:
         self.lock_bias = lock_bias
         self.avoid = avoid
         self.letters = letters
-        self.shared = shared
+        self.shared = shared if shared_frac is None else (rng.random() < shared_frac)   # shared_frac: share of the histories that use shared components
+        self.locked_immediate = locked_immediate   # never-deferred guarded calls (sremove, clone) on dead handles while locked
         self.reassign = reassign           # recorded assigns of a component the entity will hold when they are applied
         self.latedep_held = latedep_held   # late declarations also for components that live entities hold
         self.ref.threads = rng.randint(1, max_threads)
@@ -179,6 +181,19 @@ class Gen:
             v = self.r.randrange(0, 8) | (world << 30) | (self.r.randrange(0, 4) << 40)
             return "raw:%x" % v
         return "raw:%x" % self.r.getrandbits(64)
+
+    def dead_handle_locked(self):
+        """a handle that is certainly invalid for the whole locked section: an ordinal that was dead before the section began
+        (its id may have been recycled by a live entity), null, or a pattern of another world"""
+        ref = self.ref
+        dead = [o for o in range(ref.n) if o not in ref.alive and o not in ref.pending_new and o not in self.opaque]
+        k = self.r.random()
+        if dead and k < 0.7:
+            return str(self.r.choice(dead))
+        if k < 0.85:
+            return "null"
+        v = self.r.randrange(0, 8) | (self.r.choice([1, 5]) << 30) | (self.r.randrange(0, 4) << 40)
+        return "raw:%x" % v
 
     def cmd(self, t, c):
         self.ref.buf.setdefault(t, []).append(c)
@@ -346,6 +361,9 @@ class Gen:
             self.emit("cleararch %s" % (",".join(sorted(mask)) or "-"))
         elif op == "clone":
             if locked:
+                # the guard of clone() does not depend on the lock: a stale / null / foreign handle gives null at once
+                if self.locked_immediate and r.random() < self.malformed:
+                    self.emit("clone %s" % self.dead_handle_locked())
                 return
             if r.random() < self.malformed:
                 h = self.any_handle()
@@ -373,6 +391,9 @@ class Gen:
             self.emit("sassign %d %s %d" % (o, s, v))
         elif op == "sremove":
             if locked:
+                # removeSharedComponent<S>() is never deferred: under lock its guard alone keeps a stale handle harmless
+                if self.locked_immediate and r.random() < self.malformed:
+                    self.emit("sremove %s %s" % (self.dead_handle_locked(), r.choice(SHARED)))
                 return
             if r.random() < self.malformed:
                 h = self.any_handle()
